@@ -70,6 +70,14 @@ def attr(e, name):
     return ['attr', e, name]
 
 
+def safeattr(e, name):
+    return ['safeattr', e, name]
+
+
+def safemcall(recv, f, *args):
+    return ['safemcall', recv, f, list(args), []]
+
+
 def kwd(t):
     return ['kwd', t]
 
@@ -129,6 +137,10 @@ def render(e):
         return '%s.%s(%s)' % (render(e[1]), e[2], ', '.join(args))
     if k == 'attr':
         return '%s.%s' % (render(e[1]), e[2])
+    if k == 'safeattr':
+        return '%s?.%s' % (render(e[1]), e[2])
+    if k == 'safemcall':
+        return '%s?.%s(%s)' % (render(e[1]), e[2], ', '.join(render(a) for a in e[3]))
     raise ValueError(k)
 
 
@@ -155,6 +167,10 @@ def tla_ast(e):
         return ['mcall', tla_ast(e[1]), e[2], [tla_ast(a) for a in e[3]], [[n, tla_ast(v)] for n, v in e[4]]]
     if k == 'attr':
         return ['attr', tla_ast(e[1]), e[2]]
+    if k == 'safeattr':
+        return ['safeattr', tla_ast(e[1]), e[2]]
+    if k == 'safemcall':
+        return ['safemcall', tla_ast(e[1]), e[2], [tla_ast(a) for a in e[3]], []]
     raise ValueError(k)
 
 
